@@ -14,8 +14,26 @@ META = {
             "fix. The model is tied to the code by running it on real heap snapshots + roots dumped before forced "
             "collections (model after-state = real after-state; Spec.Reach = allocated set) and on random Heap API "
             "operation sequences.",
-    "note": "The first sentence of C03 (unobservability for every program and schedule, T03.5) is NOT a closed theorem "
-            "here: it is carried by (a) the GC-side lemmas it needs (T03.2 run_gc preserves content/allocation/symbol "
+    "note": "T03.5 status: gc_unobservable_partial / gc_unobservable_value_partial state the first sentence of C03 for the "
+            "concrete machine (run_one over Vm/ConcreteHeap.lean, collector = this file's Heap.runGc through the erasure) "
+            "and EVERY schedule of collections at instruction boundaries: same status (running / HALT / same failure), "
+            "Sim-related end states, equal datum read from acc. Closed: (a) the collector clause (cgc_sim, from T03.2 and "
+            "T03.3); (b) the simulation lemma of all 16 opcodes (step_sim / execSim_all: JMP JNT MOV MOVIMM PUSH PUSHIMM "
+            "PUSHACC HALT RET CALL TCALL ENTER and the allocating CONS VARARG CLOSURE ENTER-of-a-closure call/cc, where "
+            "the injection is extended at the two fresh addresses; apply; eval's frame handling; put/maybe_put with "
+            "symbol interning, putNew_sim); (c) observation equality (readObs_rel, eq_agree); (d) a good state simulates "
+            "itself (sim_refl). Explicit hypotheses (hence _partial): ExtLaws = the law 'respects the simulation' of the "
+            "four NON-MODELLED parameters of concreteOps (builtinKind, builtinEval = 139 generic Rust procedures, "
+            "compileEval = eval's compiler, vectorPush = VPUSH through an aliased Rc); Safe = every state along either run "
+            "has a heap below 2^63 cells, a well-formed erased heap with allocated roots (WFHeap/RootsOk: T03.3 proves each "
+            "heap operation preserves it, the lifting to run_one is assumed), kind disciplines Plain (no heap cell holds a "
+            "bare LexicalEnvPtr/InstructionPointer, global slots are pointers or address-free, continuation objects hold "
+            "stack[0..=sp]) and NoIofArg, and bp-relative stack reads at or below sp. The concrete instantiation is tied to "
+            "the code by the concrete-heap-step stream; model limits found there: an inline Rc payload (the Vector left in "
+            "acc by VPUSH) stored back by CONS is by-value in the model (bucket alias), out-of-range operands panic in Rust "
+            "and take a default in the total HeapOps signature. Output (display/write) is not part of the machine model. "
+            "Beyond those theorems the first sentence is "
+            "carried by (a) the GC-side lemmas it needs (T03.2 run_gc preserves content/allocation/symbol "
             "identity of everything reachable, stated for an arbitrary machine whose step dereferences only reachable "
             "addresses — that root-sufficiency premise is a hypothesis, the VM model belongs to another work package) "
             "and (b) an implementation-level exploration: allocation-heavy program templates run through the real "
@@ -29,7 +47,59 @@ META = {
                  "heap snapshots and API sequences + schedule exploration on the implementation",
 }
 MODULE = "Marwood.Proofs.C03"
-THEOREMS = ["Marwood.Proofs.C03." + t for t in ['mark_computes_reachable', 'mark_fuel_adequate', 'runGc_fuel_adequate', 'runGc_preserves_reachable', 'runGc_skipped_id', 'runGc_preserves_observation', 'new_wf', 'alloc_preserves_wf', 'put_preserves_wf', 'maybePut_preserves_wf', 'free_preserves_wf', 'grow_preserves_wf', 'mark_preserves_wfcore', 'runGc_preserves_wf', 'witness_ok', 'unfixed_marker_breaks_wf', 'fixed_marker_keeps_wf', 'unfixed_marker_allocates_cell_twice', 'fixed_marker_allocates_each_cell_once']]
+THEOREMS = ["Marwood.Proofs.C03." + t for t in ['mark_computes_reachable', 'mark_fuel_adequate', 'runGc_fuel_adequate', 'runGc_preserves_reachable', 'runGc_skipped_id', 'runGc_preserves_observation', 'new_wf', 'alloc_preserves_wf', 'put_preserves_wf', 'maybePut_preserves_wf', 'free_preserves_wf', 'grow_preserves_wf', 'mark_preserves_wfcore', 'runGc_preserves_wf', 'witness_ok', 'unfixed_marker_breaks_wf', 'fixed_marker_keeps_wf', 'unfixed_marker_allocates_cell_twice', 'fixed_marker_allocates_each_cell_once', 'runSched_pureN', 'gc_unobservable_partial', 'gc_unobservable_value_partial', 'demo_sim']] + ["Marwood.Lemmas.Sim." + t for t in ['cgc_sim', 'cput_sim', 'putNew_sim', 'step_sim', 'execSim_all', 'activationLaw', 'builtinLaw_of_ext', 'sim_refl', 'readObs_rel', 'eq_agree']]
+
+
+def simstep_info(req):
+    """`simstep i:<opcode>:<kind>:<core|ext|alias>:<scr|lin>:<inline-rc> …` -> dict"""
+    f = req.split(" ", 2)[1].split(":")
+    return {"op": f[1], "kind": ":".join(f[2:-3]), "cat": f[-3], "scr": f[-2] == "scr", "inl": int(f[-1])}
+
+
+def simstep_machine_part(resp):
+    """`ok sp bp ep ipl ipo acc halt cap n cell*n D cap' m …` -> everything up to the number of changed cells"""
+    t = resp.split(" ")
+    return t[:10 + int(t[9]) + 3]
+
+
+def simstep_equal(req, impl, model):
+    """string equality, except for the `alias` bucket (CONS / VARARG putting an inline Rc payload on the heap: the real
+    heap then has two cells sharing one Rc, the by-value model stores the representative): there only registers,
+    stack, heap capacity and the number of changed cells are compared"""
+    if impl == model:
+        return True
+    if simstep_info(req)["cat"] == "alias" and impl.startswith("ok ") and model.startswith("ok "):
+        return simstep_machine_part(impl) == simstep_machine_part(model)
+    return False
+
+
+def simstep_summary(ctx, stream, cases, md):
+    """per-opcode / per-kind counts of the concrete-heap-step stream (evidence: coverage.streams[stream].detail)"""
+    bad = {c["request"] for c in md}
+    per_op, per_kind = {}, {}
+    tot = {"core": 0, "ext": 0, "alias": 0, "scrambled_free_list": 0, "inline_rc": 0, "impl_ok": 0, "impl_err": 0,
+           "impl_panic": 0, "core_disagree": 0, "ext_disagree": 0, "alias_disagree": 0}
+    for req, impl, _ in cases:
+        i = simstep_info(req)
+        per_op[i["op"]] = per_op.get(i["op"], 0) + 1
+        k = i["op"] + ":" + i["kind"]
+        per_kind[k] = per_kind.get(k, 0) + 1
+        tot[i["cat"]] += 1
+        tot["scrambled_free_list"] += i["scr"]
+        tot["inline_rc"] += i["inl"] > 0
+        tot["impl_" + impl.split(" ", 1)[0]] = tot.get("impl_" + impl.split(" ", 1)[0], 0) + 1
+        if req in bad:
+            tot[i["cat"] + "_disagree"] += 1
+    detail = dict(tot, per_opcode=dict(sorted(per_op.items())), per_kind=dict(sorted(per_kind.items())))
+    ctx.streams[stream]["detail"] = detail
+    line = ("%s: %d steps (%d core, %d ext, %d alias [machine part only]), %d with scrambled free list, %d with an "
+            "inline Rc payload, impl ok/err/panic %d/%d/%d, disagreements core %d ext %d alias %d; per opcode %s" % (
+                stream, len(cases), tot["core"], tot["ext"], tot["alias"], tot["scrambled_free_list"], tot["inline_rc"],
+                tot["impl_ok"], tot["impl_err"], tot["impl_panic"], tot["core_disagree"], tot["ext_disagree"],
+                tot["alias_disagree"],
+                " ".join("%s=%d" % kv for kv in sorted(per_op.items()))))
+    ctx.notes.append(line)
+    print("C03 " + line)
 
 
 def streams(ctx):
@@ -47,6 +117,17 @@ def streams(ctx):
     cases = gen_cases_sharded("gc", ["snap", 30 if q else 300, 6], ctx.seed, 4 if q else 8)
     md, sd = correspond(ctx, "gc-snapshots", cases, snap_nontrivial, spec_equal=snap_spec_equal)
     settle(ctx, md, sd)
+    # the machine model over the collector's heap model (Marwood.Vm.Concrete.concreteOps, T03.5/T13.3): one real
+    # instruction from a COMPLETE real heap snapshot (payloads, gc states, free list in order, symbol table, global
+    # environment, whole stack) vs `step (concreteOps ext)` on the same state; post-state compared as registers +
+    # whole stack + changed cells + free-list / symbol-table / global-environment delta
+    if q:
+        cases = gen_cases("simstep", ["run", 88, 7], ctx.seed)
+    else:
+        cases = gen_cases_sharded("simstep", ["run", 176, 8], ctx.seed, 2)
+    md, sd = correspond(ctx, "concrete-heap-step", cases, lambda r, i: i.startswith("ok"), model_equal=simstep_equal)
+    simstep_summary(ctx, "concrete-heap-step", cases, md)
+    settle(ctx, md, sd)
     # unobservability exploration on the implementation
     cases = gen_cases_sharded("gc", ["obs", 20 if q else 150, 3 if q else 18], ctx.seed, 5 if q else 8)
     md, sd = correspond(ctx, "schedule-exploration", cases, obs_nontrivial)
@@ -55,11 +136,20 @@ def streams(ctx):
 
 def run(ctx):
     return standard_run(
-        ctx, MODULE, THEOREMS, ["gc"], streams,
+        ctx, MODULE, THEOREMS, ["gc", "simstep"], streams,
         rule="(1) real heap snapshot + roots before a forced collection (programs from 16 allocation-heavy templates, "
              "collections every k-th instruction / random boundaries, sampled) -> Lean run_gc must give the real "
              "after-state (allocated set, free multiset, symbol table, states) and Spec.Reach must equal the allocated "
              "set; (2) random Heap API sequences (put/maybe_put/alloc/free/mark/sweep/grow) model vs real, full state; "
-             "(3) sessions under collection schedules vs schedule-free transcript (values, error classes, output). "
-             "Non-trivial = collection kept something / transcript has a successful form; distinct by request text",
+             "(3) sessions under collection schedules vs schedule-free transcript (values, error classes, output); "
+             "(4) concrete-heap-step: single instructions of the real VM (feature sessions, collector templates, generated "
+             "sessions, hand-assembled bytecode for PUSH / base-pointer operands / malformed code; half of the VMs with "
+             "forced collections every k instructions) from a complete heap snapshot vs Lean step(concreteOps ext), "
+             "sampled so that every opcode, callee kind and operand kind recurs (counts under coverage.streams."
+             "concrete-heap-step.detail; generic builtins, eval's compiler and VPUSH replay the recorded heap delta and "
+             "are counted as ext; CONS/VARARG of an inline Rc payload - a second heap cell sharing the Rc, not "
+             "expressible in the by-value model - are counted as alias and compared on registers, stack and number of "
+             "changed cells only). "
+             "Non-trivial = collection kept something / transcript has a successful form / step executed; distinct by "
+             "request text",
         trusted_extra=["T03.5 (unobservability) is carried by stream (3) plus theorem T03.2, not by a closed theorem"])
